@@ -15,3 +15,5 @@ impl Fiber {
 pub open spec fn line_ip(f: &Fiber, j: int) -> int {
   if j < f.backtrace_ips@.len() { ip_val(f.backtrace_ips@[j]) } else { frame_ip(f.frames@[f.frames@.len() - 1 - j]) }
 }
+/// the code offset a traceback line is looked up at: the byte before the saved instruction pointer
+pub open spec fn line_at(frame: CallFrame, ip: int) -> int { if code_off(frame, ip) >= 1 { code_off(frame, ip) - 1 } else { 0 } }
